@@ -23,7 +23,7 @@ from typing import Any, List
 
 from vlib.h_state import (
     EV_STOP, EV_STOPSUB, EV_TYPED, EVENT_CLASSES, MODELS, N_SHAPES, TYPED_ATOMS, AnsEv, AskEv, EvPlain, EvTyped, HErr,
-    HErr2, Inner, StopSub, ast_keylike, ast_strings, deq, make_event, pickb, reserved_names, same_event, shape,
+    HErr2, Inner, StopSub, ast_keylike, ast_strings, cint, deq, make_event, pickb, reserved_names, same_event, shape, untraced,
 )
 
 from llama_agents.client.protocol.serializable_events import EventEnvelopeWithMetadata
@@ -68,6 +68,10 @@ ASSUMES = [
     "payloads are JSON-representable: str/int/float/bool/None atoms, lists, str-keyed dicts (no NaN/inf, tuples, bytes)",
     "event / model / exception classes are module-level (importable by qualified name), as the serializers require",
     "pydantic-core, json execute concretely inside each symbolic path; the solver decides the shape/pool index space",
+    "ob_payload_*: JsonSerializer is executed under CrossHair's tracer; event/tick/exception obligations: every symbolic "
+    "parameter is first forked to a concrete pool member (pickb/cint), then the real constructors and serializers run "
+    "with CrossHair's opcode tracing suspended (vlib.h_state.untraced) — they only ever receive concrete values, and "
+    "tracing pydantic's Python layers costs ~1 s per event and introduces proxy artefacts (dict() -> ShellMutableMap)",
     "AddWaiter.requirements is documented as not serialized: only has_requirements==bool(requirements) before the "
     "trip is required of it; the statement is about the events and exceptions a tick carries",
     "a dynamic field is a keyword that is neither a declared field, a private attribute nor a constructor parameter "
@@ -92,13 +96,11 @@ NK = B(NKQ, len(ALLKEYS))  # key pool bound: quick = literals the code uses as k
 NAQ = len(TYPED_ATOMS) + NKQ - 2
 NA = B(NAQ, len(ATOMS))
 NSH = B(3, N_SHAPES)
-KV: List[Any] = [True, "a", None, 0]
-MARKERS = ("__is_pydantic", "__is_component")
+KV: List[Any] = [True, "a", None, 0]  # index <= 1: truthy
 S = JsonSerializer()
-
-
-def key(k: int) -> str:
-    return ALLKEYS[k]
+KI = {name: i for i, name in enumerate(ALLKEYS)}  # literal -> pool index (for `exclude` predicates over ints)
+_QN, _M0, _M1 = KI.get("qualified_name", -1), KI.get("__is_pydantic", -1), KI.get("__is_component", -1)
+NKS = NKM + 1  # quick key pool of the marker obligations: serializers.py's own key literals + the next key-like literal
 
 
 # ------------------------------------------------------------------------------------------------ routes
@@ -166,34 +168,37 @@ def explain(ev: Any) -> List[Any]:  # debugging aid (native)
 # ------------------------------------------------------------------------------------------------ Ob1 payloads
 
 
-@obligation(quick=90, thorough=300, partitions_thorough=[f"sh == {s}" for s in range(N_SHAPES)],
-            what="JsonSerializer round trip (serialize/deserialize and *_value) of every pool atom in every shape",
-            bounds={"atoms": "typed atoms + every AST string literal", "shapes": "depth<=2 width<=2"})
+@obligation(quick=150, thorough=400, partitions_quick=["sh <= 3", "sh > 3"], partitions_thorough=[f"sh == {s}" for s in range(N_SHAPES)],
+            what="JsonSerializer round trip (serialize/deserialize and *_value) of every pool atom in every shape (traced)",
+            bounds={"atoms": "quick: typed atoms + key-like literals; thorough: + every AST string literal", "second atom": "quick 0/None, thorough all typed atoms",
+                    "shapes": "7, depth<=2 width<=2"})
 def ob_payload_atoms(ai: int, bi: int, sh: int) -> bool:
     """
-    pre: 0 <= ai < len(ATOMS) and 0 <= bi < len(TYPED_ATOMS) and 0 <= sh < N_SHAPES
-    pre: bi == 0 or sh in (3, 4, 5, 6)
+    pre: 0 <= ai < NA and 0 <= sh < N_SHAPES
+    pre: (bi == 7 or (sh >= 3 and (bi == 2 or (NSH > 3 and 0 <= bi < len(TYPED_ATOMS)))))
     post: _
     """
     return payload_ok(shape(sh, pickb(ATOMS, ai), pickb(TYPED_ATOMS, bi)))
 
 
 def marker_pair(k1: int, k2: int, v1: int, v2: int) -> bool:
-    """The dict {key(k1): KV[v1], key(k2): KV[v2]} carries a truthy marker key and a truthy 'qualified_name'."""
-    d = {ALLKEYS[k1]: KV[v1]}
-    d[ALLKEYS[k2]] = KV[v2]
-    return bool((d.get("__is_pydantic") or d.get("__is_component")) and d.get("qualified_name"))
+    """The dict {ALLKEYS[k1]: KV[v1], ALLKEYS[k2]: KV[v2]} carries a truthy marker key ('__is_pydantic' /
+    '__is_component') and a truthy 'qualified_name' (pure int arithmetic: usable in `pre:` / `exclude`)."""
+    if v1 > 1 or v2 > 1:
+        return False
+    return (k1 == _QN and (k2 == _M0 or k2 == _M1)) or (k2 == _QN and (k1 == _M0 or k1 == _M1))
 
 
-@obligation(quick=90, thorough=400,
-            partitions_quick=[f"v1 == {a} and v2 == {b}" for a in range(3) for b in range(3)],
+@obligation(quick=150, thorough=600,
             partitions_thorough=[f"v1 == {a} and v2 == {b}" for a in range(4) for b in range(4)],
-            what="a plain dict payload whose KEYS are drawn from the literal pool (marker keys included) round-trips",
-            bounds={"k1": "quick: key-like literals; thorough: every literal", "k2": "key-like literals", "values": "True/'a'/None/0",
-                    "nest": "bare / in list / as dict value"})
+            what="a plain dict payload whose KEYS are drawn from the literal pool (marker keys included) round-trips (traced)",
+            bounds={"k1": "quick: serializers.py key literals +1; thorough: every literal", "k2": "quick: as k1; thorough: key-like literals",
+                    "values": "True/'a'/None (thorough +0)",
+                    "nest": "bare / in list (thorough + as dict value)"})
 def ob_payload_keys(k1: int, k2: int, v1: int, v2: int, nest: int) -> bool:
     """
-    pre: 0 <= k1 < NK and 0 <= k2 < NKQ and (k1 <= k2 or k1 >= NKQ) and 0 <= v1 < B(3, 4) and 0 <= v2 < B(3, 4) and 0 <= nest <= B(1, 2)
+    pre: 0 <= k1 < B(NKS, len(ALLKEYS)) and 0 <= k2 < B(NKS, NKQ) and (k1 <= k2 or k1 >= NKQ)
+    pre: 0 <= v1 < B(3, 4) and 0 <= v2 < B(3, 4) and 0 <= nest <= B(1, 2)
     post: _
     """
     d = {pickb(ALLKEYS, k1): pickb(KV, v1)}
@@ -205,10 +210,10 @@ def ob_payload_keys(k1: int, k2: int, v1: int, v2: int, nest: int) -> bool:
     return payload_ok(d)
 
 
-@obligation(quick=60, thorough=120, what="pydantic models (pool of 2, one nested) inside payload shapes come back as the same model")
+@obligation(quick=90, thorough=200, what="pydantic models (pool of 2, one nested) inside payload shapes come back as the same model (traced)")
 def ob_payload_models(mi: int, sh: int, bi: int) -> bool:
     """
-    pre: 0 <= mi < len(MODELS) and 0 <= sh < N_SHAPES and 0 <= bi < len(TYPED_ATOMS)
+    pre: 0 <= mi < len(MODELS) and 0 <= sh < N_SHAPES and (bi == 7 or (NSH > 3 and 0 <= bi < len(TYPED_ATOMS)))
     post: _
     """
     return payload_ok(shape(sh, pickb(MODELS, mi), pickb(TYPED_ATOMS, bi)))
@@ -217,41 +222,46 @@ def ob_payload_models(mi: int, sh: int, bi: int) -> bool:
 # ------------------------------------------------------------------------------------------------ Ob2 events
 
 
-@obligation(quick=120, thorough=600,
-            partitions_quick=[f"ci == {c} and inres == {r}" for c in range(6) for r in (0, 1) if r == 0 or c in (2, 3)],
-            partitions_thorough=[f"ci == {c} and inres == {r} and sh {q}" for c in range(6) for r in (0, 1) if r == 0 or c in (2, 3)
-                                 for q in ("<= 2", "> 2")],
+@obligation(quick=150, thorough=600,
+            partitions_thorough=[f"sh == {s} and ai {q}" for s in range(N_SHAPES) for q in ("< 40", ">= 40")],
             what="event of every pool class, payload (shape x atom) in a dynamic field or in StopEvent.result: same class, "
                  "equal typed fields, equal _data, equal result on all routes",
-            bounds={"classes": 6, "atoms": "quick: typed atoms + key-like literals; thorough: every literal", "shapes": "quick 3, thorough 7"})
+            bounds={"classes": 6, "atoms": "quick: typed atoms + key-like literals; thorough: + every AST literal", "shapes": "quick 3, thorough 7"})
 def ob_event_atoms(ci: int, sh: int, ai: int, inres: int) -> bool:
     """
     pre: 0 <= ci < 6 and 0 <= sh < NSH and 0 <= ai < NA and 0 <= inres <= 1
     pre: inres == 0 or ci in (2, 3)
     post: _
     """
-    v = shape(sh, pickb(ATOMS, ai), 0)
-    if inres == 1:
-        return event_ok(make_event(ci, None, v))
-    return event_ok(make_event(ci, {"a": v}, None))
+    ci, sh, inres = cint(ci, 0, 5), cint(sh, 0, N_SHAPES - 1), cint(inres, 0, 1)
+    a = pickb(ATOMS, ai)
+    with untraced():
+        v = shape(sh, a, 0)
+        if inres == 1:
+            return event_ok(make_event(ci, None, v))
+        return event_ok(make_event(ci, {"a": v}, None))
 
 
 def dyn_ok(ci: int, fk: int) -> bool:
     return ALLKEYS[fk] not in reserved_names(EVENT_CLASSES[ci])
 
 
-@obligation(quick=120, thorough=600, partitions_quick=[f"ci == {c}" for c in range(6)],
-            partitions_thorough=[f"ci == {c} and vi == {v}" for c in range(6) for v in range(3)],
+@obligation(quick=150, thorough=600,
+            partitions_thorough=[f"vi == {v} and ci {q}" for v in range(3) for q in ("< 3", ">= 3")],
             what="dynamic field NAMES drawn from the literal pool (marker keys, 'class_name', 'value', 'type', ...)",
-            bounds={"names": "quick: key-like literals; thorough: every literal", "values": "1 / 'a' / {'a': 1}"})
+            bounds={"names": "quick: key-like literals; thorough: every AST literal", "values": "1 / 'a' / {'a': 1}"})
 def ob_event_field_names(ci: int, fk: int, vi: int) -> bool:
     """
-    pre: 0 <= ci < 6 and 0 <= fk < NK and 0 <= vi <= 2 and dyn_ok(ci, fk)
+    pre: 0 <= ci < 6 and 0 <= fk < NK and 0 <= vi <= 2
     post: _
     """
-    name = pickb(ALLKEYS, fk)
-    v = 1 if vi == 0 else ("a" if vi == 1 else {"a": 1})
-    return event_ok(make_event(ci, {name: v, "b": 2}, 5 if ci in (EV_STOP, EV_STOPSUB) else None))
+    ci, vi, fk = cint(ci, 0, 5), cint(vi, 0, 2), cint(fk, 0, len(ALLKEYS) - 1)
+    name = ALLKEYS[fk]
+    with untraced():
+        if not dyn_ok(ci, fk):
+            return True  # not a dynamic field of this class (declared field / private attribute / ctor parameter)
+        v = 1 if vi == 0 else ("a" if vi == 1 else {"a": 1})
+        return event_ok(make_event(ci, {name: v, "b": 2}, 5 if ci in (EV_STOP, EV_STOPSUB) else None))
 
 
 W_TYPED, W_DYN, W_DYN_LIST, W_RESULT, W_RESULT_DICT = 0, 1, 2, 3, 4
@@ -264,32 +274,39 @@ def ob_event_nested_model(ci: int, where: int, mi: int) -> bool:
     pre: (where != 0 or ci == 1) and (where < 3 or ci in (2, 3))
     post: _
     """
+    ci, where = cint(ci, 0, 5), cint(where, 0, 4)
     m = pickb(MODELS, mi)
-    if where == W_TYPED:
-        return event_ok(EvTyped(n=1, inner=Inner(x=9), a=1))
-    if where == W_DYN:
-        return event_ok(make_event(ci, {"a": m}))
-    if where == W_DYN_LIST:
-        return event_ok(make_event(ci, {"a": [m]}))
-    if where == W_RESULT:
-        return event_ok(make_event(ci, None, m))
-    return event_ok(make_event(ci, None, {"a": m}))
+    with untraced():
+        if where == W_TYPED:
+            return event_ok(EvTyped(n=1, inner=Inner(x=9), a=1))
+        if where == W_DYN:
+            return event_ok(make_event(ci, {"a": m}))
+        if where == W_DYN_LIST:
+            return event_ok(make_event(ci, {"a": [m]}))
+        if where == W_RESULT:
+            return event_ok(make_event(ci, None, m))
+        return event_ok(make_event(ci, None, {"a": m}))
 
 
-@obligation(quick=120, thorough=400, partitions_quick=[f"ci == {c}" for c in (0, 2, 3)], partitions_thorough=[f"ci == {c}" for c in (0, 2, 3)],
+@obligation(quick=150, thorough=600,
+            partitions_thorough=[f"v1 == {a} and v2 == {b}" for a in range(4) for b in range(4)],
             what="an event whose dynamic field / result is a dict carrying the serializer's marker keys is not re-interpreted",
-            bounds={"keys": "quick: serializers.py key literals; thorough: all key-like literals", "values": "True/'a' (thorough + None/0)"})
+            bounds={"keys": "quick: serializers.py key literals +1; thorough: key-like literals", "values": "True/None (thorough True/'a'/None/0)"})
 def ob_event_marker_payload(ci: int, k1: int, k2: int, v1: int, v2: int, inres: int) -> bool:
     """
-    pre: ci in (0, 2, 3) and 0 <= k1 <= k2 < B(NKM, NKQ) and 0 <= v1 < B(2, 4) and 0 <= v2 < B(2, 4) and 0 <= inres <= 1
+    pre: ci in (0, 2, 3) and 0 <= k1 <= k2 < B(NKS, NKQ) and 0 <= v1 < 4 and 0 <= v2 < 4 and 0 <= inres <= 1
+    pre: NSH > 3 or (v1 in (0, 2) and v2 in (0, 2))
     pre: inres == 0 or ci in (2, 3)
     post: _
     """
-    d = {pickb(ALLKEYS, k1): pickb(KV, v1)}
-    d[pickb(ALLKEYS, k2)] = pickb(KV, v2)
-    if inres == 1:
-        return event_ok(make_event(ci, None, d))
-    return event_ok(make_event(ci, {"a": d}, None))
+    ci, inres = cint(ci, 0, 3), cint(inres, 0, 1)
+    ka, kb, va, vb = pickb(ALLKEYS, k1), pickb(ALLKEYS, k2), pickb(KV, v1), pickb(KV, v2)
+    with untraced():
+        d = {ka: va}
+        d[kb] = vb
+        if inres == 1:
+            return event_ok(make_event(ci, None, d))
+        return event_ok(make_event(ci, {"a": d}, None))
 
 
 # ------------------------------------------------------------------------------------------------ ticks
@@ -343,10 +360,8 @@ def _same_item(a: Any, b: Any) -> bool:
         return False
     for name in type(a).model_fields:
         x, y = getattr(a, name), getattr(b, name)
-        if name == "requirements":
-            continue  # documented: never serialized
-        if name == "has_requirements":
-            continue
+        if name in ("requirements", "has_requirements"):
+            continue  # documented: requirements are never serialized
         if name == "event_type":
             if x is not y:
                 return False
@@ -372,62 +387,64 @@ def _same_tick(a: Any, b: Any) -> bool:
     return True
 
 
-@obligation(quick=120, thorough=400, partitions_quick=[f"tk == {t}" for t in range(8)],
-            partitions_thorough=[f"tk == 0 and r0 == {r}" for r in range(1, 9)] + [f"tk == {t}" for t in range(1, 8)],
-            what="every tick class and every step-result class survive WorkflowTickAdapter dump(json) -> json -> validate",
-            bounds={"ticks": 8, "step results": "list of 1..2 over 8 kinds", "events": N_TICK_EVENTS, "scalars": "ints 0..2"})
-def ob_tick_roundtrip(tk: int, r0: int, r1: int, ei: int, n: int, opt: bool) -> bool:
-    """
-    pre: 0 <= tk <= 7 and 0 <= ei < N_TICK_EVENTS and 0 <= n <= 2
-    pre: (1 <= r0 <= 8 and 0 <= r1 <= B(4, 8)) if tk == 0 else (r0 == 0 and r1 == 0)
-    pre: tk in (0, 1, 3) or ei == 0
-    pre: tk in (0, 1, 4, 5) or n == 0
-    pre: tk == 1 or not opt
-    post: _
-    """
+def _make_tick(tk: int, r0: int, r1: int, ei: int, n: int, opt: bool) -> Any:
     ev = _tick_event(ei)
     if tk == 0:
         res = [_result_item(r0, ev, n)]
         if r1 != 0:
             res.append(_result_item(r1, _tick_event((ei + 1) % N_TICK_EVENTS), n + 1))
-        t: Any = TickStepResult(step_name="s%d" % n, worker_id=n, event=ev, result=res)
-    elif tk == 1:
+        return TickStepResult(step_name="s%d" % n, worker_id=n, event=ev, result=res)
+    if tk == 1:
         if opt:
-            t = TickAddEvent(event=ev, step_name="s%d" % n, attempts=n, first_attempt_at=n + 0.25,
-                             last_exception=HErr("e%d" % n), last_failed_at=n + 0.5, recovery_counts={"h": n})
-        else:
-            t = TickAddEvent(event=ev)
-    elif tk == 2:
-        t = TickCancelRun()
-    elif tk == 3:
-        t = TickPublishEvent(event=ev)
-    elif tk == 4:
-        t = TickTimeout(timeout=n + 0.5)
-    elif tk == 5:
-        t = TickWaiterTimeout(step_name="s%d" % n, waiter_id="w%d" % n)
-    elif tk == 6:
-        t = TickIdleCheck()
-    else:
-        t = TickIdleRelease()
-    try:
-        with warnings.catch_warnings():
-            warnings.simplefilter("ignore")
-            back = _tick_rt(t)
-    except Exception:
-        return False
-    return _same_tick(t, back)
+            return TickAddEvent(event=ev, step_name="s%d" % n, attempts=n, first_attempt_at=n + 0.25,
+                                last_exception=HErr("e%d" % n), last_failed_at=n + 0.5, recovery_counts={"h": n})
+        return TickAddEvent(event=ev)
+    if tk == 2:
+        return TickCancelRun()
+    if tk == 3:
+        return TickPublishEvent(event=ev)
+    if tk == 4:
+        return TickTimeout(timeout=n + 0.5)
+    if tk == 5:
+        return TickWaiterTimeout(step_name="s%d" % n, waiter_id="w%d" % n)
+    if tk == 6:
+        return TickIdleCheck()
+    return TickIdleRelease()
+
+
+@obligation(quick=150, thorough=400, partitions_quick=["tk == 0", "tk != 0"],
+            partitions_thorough=[f"tk == 0 and r0 == {r}" for r in range(1, 9)] + ["tk != 0"],
+            what="every tick class and every step-result class survive WorkflowTickAdapter dump(json) -> json -> validate",
+            bounds={"ticks": 8, "step results": "list of 1..2; first over all 8 kinds, second over 2 (quick) / 8 (thorough)", "events": N_TICK_EVENTS,
+                    "scalars": "ints 0..1 / 0..2"})
+def ob_tick_roundtrip(tk: int, r0: int, r1: int, ei: int, n: int, opt: bool) -> bool:
+    """
+    pre: 0 <= tk <= 7 and 0 <= ei < N_TICK_EVENTS and 0 <= n <= B(1, 2)
+    pre: (1 <= r0 <= 8 and 0 <= r1 <= B(2, 8)) if tk == 0 else (r0 == 0 and r1 == 0)
+    pre: tk in (0, 1, 3) or ei == 0
+    pre: tk in (0, 1, 4, 5) or n == 0
+    pre: tk == 1 or not opt
+    post: _
+    """
+    tk, r0, r1, ei, n = cint(tk, 0, 7), cint(r0, 0, 8), cint(r1, 0, 8), cint(ei, 0, N_TICK_EVENTS - 1), cint(n, 0, 2)
+    opt = True if opt else False
+    with untraced():
+        t = _make_tick(tk, r0, r1, ei, n, opt)
+        try:
+            with warnings.catch_warnings():
+                warnings.simplefilter("ignore")
+                back = _tick_rt(t)
+        except Exception:
+            return False
+        return _same_tick(t, back)
 
 
 # ------------------------------------------------------------------------------------------------ Ob3 exceptions
 
 X_VALUE, X_RUNTIME, X_HERR, X_WF, X_TIMEOUT, X_OS, X_KEY, X_HERR2, X_JSON, X_UNICODE = range(10)
 N_EXC = 10
-MSGS: List[str] = ["a", "", "x y", "'", "exception_message", "é\n"]
-NMSG = B(len(MSGS), len(MSGS) + len(STRS))
-
-
-def _msg(mi: int) -> str:
-    return pickb(MSGS + STRS, mi)
+MSGS: List[str] = ["a", "", "x y", "'", "é\n", "exception_message"] + [s for s in STRS if s != "exception_message"]
+NMSG = B(6, len(MSGS))
 
 
 def make_exc(xi: int, msg: str) -> Exception:
@@ -455,43 +472,50 @@ def make_exc(xi: int, msg: str) -> Exception:
 C_STEP_FAILED, C_LAST_EXC, C_WF_FAILED_JSON, C_WF_FAILED_ENV, C_WF_FAILED_TICK, C_STEP_FAILED_EVENT = range(6)
 
 
-@obligation(quick=120, thorough=400, partitions_quick=[f"xi == {x}" for x in range(N_EXC)], partitions_thorough=[f"xi == {x}" for x in range(N_EXC)],
+def _exception_back(exc: Exception, carrier: int) -> Any:
+    """The exception object that comes back through the carrier, or None when a sibling field was damaged."""
+    import datetime
+
+    if carrier == C_STEP_FAILED:
+        t = TickStepResult(step_name="s", worker_id=0, event=EvPlain(), result=[StepWorkerFailed(exception=exc, failed_at=1.5)])
+        return _tick_rt(t).result[0].exception
+    if carrier == C_LAST_EXC:
+        return _tick_rt(TickAddEvent(event=EvPlain(), attempts=1, last_exception=exc)).last_exception
+    if carrier == C_STEP_FAILED_EVENT:
+        fe: Any = StepFailedEvent(step_name="s", input_event=EvPlain(a=1), exception=exc, attempts=2, elapsed_seconds=0.5,
+                                  failed_at=datetime.datetime(2026, 1, 1, tzinfo=datetime.timezone.utc))
+        fb = _json_rt(fe)
+    else:
+        fe = WorkflowFailedEvent(step_name="s", exception=exc, attempts=2, elapsed_seconds=0.5)
+        if carrier == C_WF_FAILED_JSON:
+            fb = _json_rt(fe)
+        elif carrier == C_WF_FAILED_ENV:
+            fb = _env_rt(fe, [])
+        else:
+            fb = _tick_rt(TickPublishEvent(event=fe)).event
+    if type(fb) is not type(fe) or fb.step_name != "s" or fb.attempts != 2 or fb.elapsed_seconds != 0.5:
+        return None
+    if carrier == C_STEP_FAILED_EVENT and not (same_event(fe.input_event, fb.input_event) and fb.failed_at == fe.failed_at):
+        return None
+    return fb.exception
+
+
+@obligation(quick=150, thorough=400, partitions_thorough=[f"carrier == {c}" for c in range(6)],
             what="exceptions carried by StepWorkerFailed / TickAddEvent.last_exception / WorkflowFailedEvent / StepFailedEvent keep type and str()",
-            bounds={"exception classes": N_EXC, "messages": "quick 6, thorough + every literal", "carriers": 6})
+            bounds={"exception classes": N_EXC, "messages": "quick 6; thorough + every AST literal", "carriers": 6})
 def ob_exception_roundtrip(xi: int, mi: int, carrier: int) -> bool:
     """
     pre: 0 <= xi < N_EXC and 0 <= mi < NMSG and 0 <= carrier <= 5
     post: _
     """
-    import datetime
-
-    exc = make_exc(xi, _msg(mi))
-    try:
-        with warnings.catch_warnings():
-            warnings.simplefilter("ignore")
-            if carrier == C_STEP_FAILED:
-                t = TickStepResult(step_name="s", worker_id=0, event=EvPlain(), result=[StepWorkerFailed(exception=exc, failed_at=1.5)])
-                back = _tick_rt(t).result[0].exception
-            elif carrier == C_LAST_EXC:
-                back = _tick_rt(TickAddEvent(event=EvPlain(), attempts=1, last_exception=exc)).last_exception
-            else:
-                if carrier == C_STEP_FAILED_EVENT:
-                    fe: Any = StepFailedEvent(step_name="s", input_event=EvPlain(a=1), exception=exc, attempts=2, elapsed_seconds=0.5,
-                                              failed_at=datetime.datetime(2026, 1, 1, tzinfo=datetime.timezone.utc))
-                    fb = _json_rt(fe)
-                else:
-                    fe = WorkflowFailedEvent(step_name="s", exception=exc, attempts=2, elapsed_seconds=0.5)
-                    if carrier == C_WF_FAILED_JSON:
-                        fb = _json_rt(fe)
-                    elif carrier == C_WF_FAILED_ENV:
-                        fb = _env_rt(fe, [])
-                    else:
-                        fb = _tick_rt(TickPublishEvent(event=fe)).event
-                if type(fb) is not type(fe) or fb.step_name != "s" or fb.attempts != 2 or fb.elapsed_seconds != 0.5:
-                    return False
-                if carrier == C_STEP_FAILED_EVENT and not (same_event(fe.input_event, fb.input_event) and fb.failed_at == fe.failed_at):
-                    return False
-                back = fb.exception
-    except Exception:
-        return False
-    return type(back) is type(exc) and str(back) == str(exc)
+    xi, carrier = cint(xi, 0, N_EXC - 1), cint(carrier, 0, 5)
+    msg = pickb(MSGS, mi)
+    with untraced():
+        exc = make_exc(xi, msg)
+        try:
+            with warnings.catch_warnings():
+                warnings.simplefilter("ignore")
+                back = _exception_back(exc, carrier)
+        except Exception:
+            return False
+        return type(back) is type(exc) and str(back) == str(exc)
